@@ -69,6 +69,8 @@ def op_terms(op):
             return [(t, "ObsCrash %s" % recs_term(ob["recs"]))]
         if ob.get("load_err"):
             return []
+        if kind == "skip-recs":
+            return [(t, "ObsBuildNoRecs %s %s %s" % (cq_bool(ob["ok"]), nl(ob.get("ran")), events_term(ob.get("events"))))]
         return [(t, "ObsBuild %s %s %s %s" % (cq_bool(ob["ok"]), nl(ob.get("ran")), events_term(ob.get("events")),
                                              recs_term(ob["recs"])))]
     raise ValueError(o)
